@@ -367,17 +367,38 @@ impl State {
 
     // ---- flock -----------------------------------------------------------------------
 
-    pub fn lock_enabled(&self, ofd: u64) -> bool {
-        match self.ofds.get(&ofd) {
+    /// May `ofd` take the flock on its file now (`shared` or exclusive)? flock semantics: any number
+    /// of shared holders, or one exclusive holder; a holder may convert its own lock when nobody
+    /// else holds the file.
+    pub fn lock_enabled_mode(&self, ofd: u64, shared: bool) -> bool {
+        let Some(o) = self.ofds.get(&ofd) else { return true };
+        match self.locks.get(&(o.host.clone(), o.ino)) {
             None => true,
-            Some(o) => match self.locks.get(&(o.host.clone(), o.ino)) {
-                None => true,
-                Some(h) => *h == ofd,
-            },
+            Some((held_shared, holders)) => {
+                let others = holders.iter().any(|h| *h != ofd);
+                if !others {
+                    true
+                } else {
+                    shared && *held_shared
+                }
+            }
         }
     }
 
-    pub fn sys_lock(&mut self, pid: Pid, ofd: u64, rec: &mut OpRec) -> io::Result<()> {
+    pub fn lock_enabled(&self, ofd: u64) -> bool {
+        self.lock_enabled_mode(ofd, false)
+    }
+
+    pub fn lock_release(&mut self, key: &(String, crate::fs::Ino), ofd: u64) {
+        if let Some((_, holders)) = self.locks.get_mut(key) {
+            holders.retain(|h| *h != ofd);
+            if holders.is_empty() {
+                self.locks.remove(key);
+            }
+        }
+    }
+
+    pub fn sys_lock_mode(&mut self, pid: Pid, ofd: u64, shared: bool, rec: &mut OpRec) -> io::Result<()> {
         let Some(o) = self.ofds.get(&ofd) else {
             rec.ok = false;
             rec.errno = EBADF;
@@ -389,9 +410,21 @@ impl State {
         if let Some(e) = self.inject(pid, OpKind::Lock, rec) {
             return Err(e);
         }
-        self.locks.insert(key, ofd);
+        let e = self.locks.entry(key).or_insert((shared, Vec::new()));
+        if !e.1.contains(&ofd) {
+            e.1.push(ofd);
+        }
+        // (enabledness guaranteed that no other holder conflicts; a sole holder converts)
+        if e.1.len() == 1 {
+            e.0 = shared;
+        }
         rec.ok = true;
+        rec.bytes = u64::from(shared);
         Ok(())
+    }
+
+    pub fn sys_lock(&mut self, pid: Pid, ofd: u64, rec: &mut OpRec) -> io::Result<()> {
+        self.sys_lock_mode(pid, ofd, false, rec)
     }
 
     pub fn sys_unlock(&mut self, _pid: Pid, ofd: u64, rec: &mut OpRec) -> io::Result<()> {
@@ -403,9 +436,7 @@ impl State {
         rec.path = o.path.clone();
         rec.ino = o.ino;
         let key = (o.host.clone(), o.ino);
-        if self.locks.get(&key) == Some(&ofd) {
-            self.locks.remove(&key);
-        }
+        self.lock_release(&key, ofd);
         rec.ok = true;
         Ok(())
     }
